@@ -66,7 +66,7 @@ CHECKS = {
              "determines it (under-determined + redundant supplied sets); non-modulus columns pass through also when zero / below the drop "
              "tolerance; relation files with blank lines or upper-case component names; the empty supplied set (no modulus column) is refused with "
              "the rank Warning; on the Calculator path (apply_symetry_on_elast_data) system, both flags and both tolerances -- finite-domain symbolic, "
-             "0 included -- reach fill_cij unchanged; a frame with row labels of its own gives the same outcome; triclinic (known finding: never refuses).",
+             "0 included -- reach fill_cij unchanged; a frame with row labels of its own gives the same outcome; in a 25-row table a contradiction in any single row is refused; triclinic (known finding: never refuses).",
         note="Trusted: exact-LSQ stub as the contract of numpy.linalg.lstsq; the twins (dtype, working directory, file path) are "
              "concrete runs, not solver results. Subsets of supplied components outside the listed families are outside the claim.",
         design="3/C09"),
@@ -77,7 +77,8 @@ CHECKS = {
                   "equations, for the computed frame, sign/order variants and the rotation family of degenerate eigenspaces",
         text="For all real symmetric fourth-rank tensors at once (21 symbolic components) and all 15 shear keys: z3 shows the value "
              "returned by get_target_elastic_modulus equals the target component; requested keys exclude the target; rotated axial "
-             "strains are diag(T^T diag(e) T) with trace preserved and frame-independent as a multiset, also for a single strain triple given as a "
+             "strains are diag(T^T diag(e) T) with trace preserved and frame-independent as a multiset; the same solver object evaluated again with a second "
+             "symbolic tensor returns that tensor's component; also for a single strain triple given as a "
              "1-D array, tuple or list.",
         note="Trusted: exact lift of the LAPACK frame (verified exactly with sympy: M v = lambda v, orthonormal), oracle rotation of the "
              "tensor by the harness's own 4-index contraction. Float non-orthogonality (1e-16) is outside.",
@@ -144,7 +145,8 @@ CHECKS = {
              "quantity with the QHA pressure field and requested grid (for every implementation of v2p); (b) qha's interpolation kernel "
              "maps its own pressure field to the requested pressure, reproduces cubics exactly and returns a node's value at a node's "
              "pressure (so P(T,V(T,P)) = P holds exactly on grid nodes), for every bracket with distinct nodes; (c) the range check raises ValueError iff min_T P[T,last] < max requested p on all explored paths (requested grid P_MIN + j*DELTA_P with symbolic P_MIN, DELTA_P and complete settings), runs after "
-             "refine_grid and propagates.",
+             "refine_grid and propagates; on shipped data with a reachable range that starts above zero the real Calculator's pressure-base volume and tensor views "
+             "equal an independent monotone interpolation of the volume-base quantities (concrete twin).",
         note="'P(T,V(T,P)) = P to interpolation accuracy' between nodes and monotonicity of V(P) for arbitrary data are numerical-analysis "
              "statements and are not claimed. The bracket search (numba) is stubbed by enumeration.",
         design="3/C06"),
@@ -219,7 +221,7 @@ CHECKS = {
              "(numeric-looking strings, integral floats, booleans, null) load to the written object and validate alike; a second "
              "apply_default_config call in one process is unaffected by the first (CrossHair, symbolic leaves); grid steps (DT, DELTA_P, the two sampling "
              "steps) must be positive and DT_SAMPLE / static_only are typed; non-finite numbers (nan, +-inf) are rejected for every documented numeric field; a user section over a plain "
-             "default value (and the reverse) wins as a whole.",
+             "default value (and the reverse) wins as a whole; editing a returned effective configuration does not reach later calls (history twin).",
         note="Skeleton family is bounded (depth<=3, seeded); dict-vs-leaf clashes excluded. The schema compiler covers the keyword subset "
              "the packaged schema uses and is cross-validated against jsonschema on every solver witness.",
         design="3/C16"),
